@@ -124,3 +124,66 @@ def vacuous_any_of_self_comparison(f: FuncInfo) -> List[ast.AST]:
                 if u(e) == u(a):
                     out.append(c)
     return out
+
+
+# G43 (in-place operation on a view of a caller's tensor): `start = slices[..., 0].contiguous(); start.clamp_min_(0)` - basic
+# indexing, `contiguous()`, `view`, `transpose` ... return the caller's own storage (contiguous() returns its receiver whenever the
+# layout already is contiguous, e.g. a one-row table), so the in-place method rewrites the ARGUMENT: the next call with the same
+# tensor sees other data. The reference tree has no such call (in-place methods are applied to fresh temporaries only).
+ALIASING = {"contiguous", "view", "reshape", "squeeze", "unsqueeze", "transpose", "t", "permute", "expand", "expand_as", "detach", "flatten",
+            "narrow", "unflatten", "view_as", "diagonal", "select", "unbind", "chunk", "split"}
+NOT_DATA = {"requires_grad_", "share_memory_", "retain_grad_", "register_hook_"}
+
+
+def _basic_index(s: ast.AST) -> bool:
+    parts = s.elts if isinstance(s, ast.Tuple) else [s]
+    for p in parts:
+        if isinstance(p, (ast.Slice, ast.Constant)):
+            continue
+        if isinstance(p, ast.UnaryOp) and isinstance(p.operand, ast.Constant):
+            continue
+        return False
+    return True
+
+
+def _alias_root(e: ast.AST) -> ast.AST:
+    while True:
+        if isinstance(e, ast.Subscript) and _basic_index(e.slice):
+            e = e.value
+        elif isinstance(e, ast.Call) and isinstance(e.func, ast.Attribute) and e.func.attr in ALIASING:
+            e = e.func.value
+        elif isinstance(e, ast.Attribute) and e.attr in ("T", "data"):
+            e = e.value
+        else:
+            return e
+
+
+def inplace_on_parameter_views(f: FuncInfo) -> List[dict]:
+    params = {p.name for p in f.params if p.name not in ("self", "cls")}
+    a = f.node.args
+    params -= {x.arg for x in (a.vararg, a.kwarg) if x is not None}
+    if not params:
+        return []
+    out = []
+    rd = inl = None
+    for n in own_nodes(f.node):
+        if not (isinstance(n, ast.Call) and isinstance(n.func, ast.Attribute) and n.func.attr.endswith("_") and not n.func.attr.endswith("__")
+                and not n.func.attr.startswith("_") and n.func.attr not in NOT_DATA):
+            continue
+        if rd is None:
+            from sa.defuse import ReachingDefs
+            from sa.inline import Inliner
+            rd = ReachingDefs(f.node)
+            inl = Inliner(f.node, rd)
+        r = _alias_root(n.func.value)
+        seen = 0
+        while isinstance(r, ast.Name) and r.id not in params and seen < 6:
+            # a local: every definition must be an alias of the same parameter for the call to be reported
+            defs = [d for d in rd.defs_of(r)]
+            if len(defs) != 1 or defs[0].kind != "assign" or defs[0].value is None:
+                break
+            r = _alias_root(defs[0].value)
+            seen += 1
+        if isinstance(r, ast.Name) and r.id in params and all(d.kind == "param" for d in rd.defs_of(r)):
+            out.append(dict(node=n, param=r.id))
+    return out
